@@ -127,12 +127,19 @@ func crashFingerprint(stderr string) (string, string) {
 	return line, fp
 }
 
+// workerBin: C12 runs the race-detector build of the instrumented copy, C20 the instrumented copy,
+// everything else the plain build (see ./check).
 func workerBin(race bool) string {
-	if race && os.Getenv("VERIF_RACE") != "0" {
-		return filepath.Join(binDir, "worker-race.test")
+	switch {
+	case race && os.Getenv("VERIF_RACE") != "0":
+		return filepath.Join(binDir, "worker-race-instr.test")
+	case instrBin:
+		return filepath.Join(binDir, "worker-instr.test")
 	}
 	return filepath.Join(binDir, "worker.test")
 }
+
+var instrBin bool
 
 // runJob runs one worker process to completion, restarting after SUT crashes.
 func runJob(scratch string, id int, job worker.Job, race bool, perRunTimeout time.Duration) (*batchResult, error) {
@@ -623,6 +630,7 @@ func doReplay(path string) int {
 	if pi == nil {
 		harnessFail("unknown property %s", rf.Property)
 	}
+	instrBin = pi.Instr
 	scratch, _ := os.MkdirTemp("", "orda-verif.")
 	defer os.RemoveAll(scratch)
 	outs, err := execPlans(scratch, pi, []*kernel.Plan{rf.plan()}, nil, true, 1)
@@ -836,6 +844,7 @@ func doCheck(prop, tier string) int {
 	if pi == nil {
 		harnessFail("unknown property %s", prop)
 	}
+	instrBin = pi.Instr
 	start := time.Now()
 	seed := int64(envInt("VERIF_SEED", 1))
 	workers := envInt("VERIF_WORKERS", 16)
